@@ -934,6 +934,14 @@ func RevertBlock(s State, b types.Block, bs V1BlockSupplement) RevertUpdate {
 		}
 	})
 	eru := s.Elements.revertBlock(updated, added)
+	// attestations and the chain index element are added after all other
+	// elements; report them with the leaf indices they had when applied
+	nextLeaf := s.Elements.NumLeaves + uint64(len(added))
+	for i := range ms.aes {
+		ms.aes[i].StateElement.LeafIndex = nextLeaf
+		nextLeaf++
+	}
+	ms.cie.StateElement.LeafIndex = nextLeaf
 	// Each elementLeaf points to an array index within ms, so we need to
 	// duplicate before we can safely reverse in place
 	for _, elems := range eru.updated {
@@ -946,6 +954,7 @@ func RevertBlock(s State, b types.Block, bs V1BlockSupplement) RevertUpdate {
 	slices.Reverse(ms.sfes)
 	slices.Reverse(ms.fces)
 	slices.Reverse(ms.v2fces)
+	slices.Reverse(ms.aes)
 	return RevertUpdate{ms.sces, ms.sfes, ms.fces, ms.v2fces, ms.aes, ms.cie, eru}
 }
 
